@@ -243,7 +243,7 @@ func runC05(a *A) {
 		// under "filter set and predicate false", keep must be false on every path
 		env := &Env{a: a, Rank: map[string]int{}, Flags: map[string]bool{},
 			Assume: func(t *Term, v ssa.Value) Tri {
-				if c, ok := v.(*ssa.Call); ok && c.Call.IsInvoke() && c.Call.Method.Name() == "Evaluate" {
+				if predicateVerdict(v) {
 					return F
 				}
 				if bo, ok := v.(*ssa.BinOp); ok && (bo.Op == token.NEQ || bo.Op == token.EQL) {
